@@ -52,6 +52,18 @@ func c18LimitInterp(t *testing.T, c c18Case, timed bool) kit.Verdict {
 			}
 			log.ev(ev)
 		}
+		// the holder's critical section: Return is deferred, so a holder that
+		// panics (Key=1; recovered one frame up, like recover middleware) still
+		// gives its slot back
+		hold := func(g, i int, op c18Op) {
+			c18Try(func() {
+				defer ret(g, i, op, "return")
+				c18Sleep(op.H)
+				if op.Key == 1 {
+					panic(c18Panic{"limit holder"})
+				}
+			})
+		}
 		return func(g, i int, op c18Op) {
 			switch op.K {
 			case "borrow":
@@ -70,8 +82,7 @@ func c18LimitInterp(t *testing.T, c c18Case, timed bool) kit.Verdict {
 				ev.Ret = clk.now()
 				log.ev(ev)
 				if ev.OK {
-					c18Sleep(op.H)
-					ret(g, i, op, "return")
+					hold(g, i, op)
 				}
 			case "try":
 				ev := c18Ev{G: g, I: i, Op: op, Sub: "try"}
@@ -80,8 +91,7 @@ func c18LimitInterp(t *testing.T, c c18Case, timed bool) kit.Verdict {
 				ev.Ret = clk.now()
 				log.ev(ev)
 				if ev.OK {
-					c18Sleep(op.H)
-					ret(g, i, op, "return")
+					hold(g, i, op)
 				}
 			case "ret":
 				ret(g, i, op, "unmatched-return")
@@ -149,6 +159,9 @@ func c18LimitInterp(t *testing.T, c c18Case, timed bool) kit.Verdict {
 			}
 			pops = append(pops, porcupine.Operation{ClientId: ev.G, Input: c18PIn{K: "try"}, Output: c18POut{OK: ev.OK}, Call: ev.Inv.S, Return: ev.Ret.S})
 		case "borrow":
+			if ev.OK && ev.Op.Key == 1 {
+				v.class("holder-panicked-before-deferred-return")
+			}
 			waited := ev.Ret.T - ev.Inv.T
 			if waited > 0 {
 				v.class("borrow-blocked")
@@ -265,6 +278,9 @@ func c18LimitGen(timed bool) func(rt *rapid.T) c18Case {
 			op := c18Op{K: rapid.SampledFrom([]string{"borrow", "borrow", "borrow", "try", "try", "ret"}).Draw(rt, "k")}
 			if op.K != "ret" {
 				op.H = c18Hold(rt)
+				if rapid.IntRange(0, 5).Draw(rt, "holderPanics") == 0 {
+					op.Key = 1
+				}
 			}
 			if timed && op.K == "borrow" {
 				op.A = rapid.SampledFrom([]int{0, 1, 2, 2, 3, 4, 5, 8}).Draw(rt, "timeout")
